@@ -116,6 +116,8 @@ def datum_of(d):
 
 LISTS = {0: [0, 2], 1: [1, 3], 2: [1, 2, 3], 3: [0, 1, 3]}
 COUNTS = {0: [2, 1, 3], 1: [1, 3, 2], 2: [2, 1], 3: [1, 2]}
+ICOUNTS = {0: [2, 1, 3, 1], 1: [1, 3, 2, 3]}             # elements per profile (4 profiles)
+IINDEX = {0: [0, 1, 0, 1], 1: [0, 0, 1, 1], 2: [1, 0, 0, 1]}    # station of each profile: shape (2, 2, 3)
 
 
 def compressed_data(sk):
@@ -130,6 +132,13 @@ def compressed_data(sk):
         L = cfdm.List(data=cfdm.Data(np.array(lst)))
         arr = cfdm.GatheredArray(compressed_array=cfdm.Data(comp), shape=sizes,
                                  compressed_dimensions={p: tuple(range(p, p + n))}, list_variable=L)
+    elif c["kind"] == "idxcont":
+        counts, index = ICOUNTS[c["t"]], IINDEX[c["i"]]
+        comp = sk["id"] * 1000.0 + np.arange(sum(counts), dtype=float)
+        arr = cfdm.RaggedIndexedContiguousArray(
+            compressed_array=cfdm.Data(comp), shape=sizes,
+            count_variable=cfdm.Count(data=cfdm.Data(np.array(counts))),
+            index_variable=cfdm.Index(data=cfdm.Data(np.array(index))))
     else:
         counts = COUNTS[c["t"]]
         comp = sk["id"] * 1000.0 + np.arange(sum(counts), dtype=float)
@@ -187,7 +196,7 @@ def build(sk):
     if sk.get("cmp") is not None:
         f.set_data(compressed_data(sk), axes=axes)
         if sk["cmp"]["kind"] != "gath":
-            f.set_property("featureType", "timeSeries")
+            f.set_property("featureType", "timeSeriesProfile" if sk["cmp"]["kind"] == "idxcont" else "timeSeries")
     else:
         f.set_data(cfdm.Data(sk["id"] * 1000.0 + np.arange(int(np.prod(sizes)), dtype=float).reshape(sizes)),
                    axes=axes)
@@ -458,7 +467,8 @@ def raw_view(path, sks):
 
             def find(cands, it, want_dims):
                 for n in cands:
-                    if n in variables and ltok(n) == it["t"] and dims[n] == want_dims:
+                    if n in variables and ltok(n) == it["t"] and dims[n] == want_dims \
+                            and (("bounds" in atts[n]) == (it.get("b") is not None)):
                         return n
                 return None
 
@@ -757,12 +767,12 @@ def run_case(case, scratch, ci):
                 r["gfile"] = raw_gview(p, [sks[k] for k in order])
             except Exception as e:
                 r["raw_exc"] = type(e).__name__ + ": " + str(e)[:300] + traceback.format_exc()[-400:]
-        elif all(sk.get("cmp") is not None for sk in sks):
+        elif all(sk.get("cmp") is not None and not sk.get("nomodel") for sk in sks):
             try:
                 r["cfile"] = raw_cview(p, [sks[k] for k in order])
             except Exception as e:
                 r["raw_exc"] = type(e).__name__ + ": " + str(e)[:300] + traceback.format_exc()[-400:]
-        elif all(sk.get("ex") is None and sk.get("cmp") is None for sk in sks):
+        elif all(sk.get("ex") is None and sk.get("cmp") is None and not sk.get("nomodel") for sk in sks):
             try:
                 fview, refs, nvars = raw_view(p, [sks[k] for k in order])
                 r["file"] = fview
